@@ -4,7 +4,7 @@
 //      parse_hex (E-rw-5): every 2-character / 4-character hex string (full domain of the two instantiations)
 //  * checks the three capacity self-checks (assert_eq! on Vec::capacity, dropped from the Verus text, E-drop-2)
 //    on the real code at fixed data lengths (bounded stand-in).
-#![allow(dead_code, unused_imports, unused_variables, unused_results)]
+#![allow(dead_code, unused_imports, unused_variables, unused_results, unsafe_code, static_mut_refs)]
 use super::*;
 
 pub(crate) const CHECKSUM_MAX: usize = 259; // 4 header bytes + 255 data bytes: Verus proves len <= 259 at both call sites
@@ -136,4 +136,231 @@ fn chunks_map_collect_pipeline() {
     assert!(v[1] == hex_val(s[2]) * 16 + hex_val(s[3]));
     assert!(v[2] == hex_val(s[4]) * 16 + hex_val(s[5]));
     kani::cover!(v[2] == 0xAB, "cov_ab");
+}
+
+// ------------------------------------------------------------------------------------------ C15 (BOUNDED stand-in)
+// Frame::read = BufReader::with_capacity(1, r).read_until(b'\n') + from_bytes; Frame::write = write_all(to_bytes_with_newline()).
+// The real std code is executed by Kani on adversarial Read / Write implementations; the stream length is the bound.
+use std::io::{self, Read, Write};
+
+const TAPE: usize = 4;
+
+struct Tape {
+    data: [u8; TAPE],
+    len: usize,
+    pos: usize,
+    calls: usize,
+    interrupt_at: [usize; 2], // the n-th read call reports Interrupted (0 = never)
+    hard_error_at: usize,     // the n-th read call fails hard (0 = never)
+    lf_delivered: bool,
+    reads_after_lf: usize,
+    max_request: usize,
+    hard_error_fired: bool,
+}
+impl Read for Tape {
+    fn read(&mut self, buf: &mut [u8]) -> io::Result<usize> {
+        self.calls += 1;
+        if buf.len() > self.max_request {
+            self.max_request = buf.len();
+        }
+        if self.lf_delivered {
+            self.reads_after_lf += 1;
+        }
+        if self.calls == self.hard_error_at {
+            self.hard_error_fired = true;
+            return Err(io::Error::from(io::ErrorKind::BrokenPipe));
+        }
+        if self.calls == self.interrupt_at[0] || self.calls == self.interrupt_at[1] {
+            return Err(io::Error::from(io::ErrorKind::Interrupted));
+        }
+        if self.pos >= self.len || buf.is_empty() {
+            return Ok(0);
+        }
+        let b = self.data[self.pos];
+        buf[0] = b; // a short read: one byte, however large the request
+        self.pos += 1;
+        if b == b'\n' {
+            self.lf_delivered = true;
+        }
+        Ok(1)
+    }
+}
+
+static mut FB_CALLS: usize = 0;
+static mut FB_LEN: usize = 0;
+static mut FB_BYTES: [u8; TAPE] = [0; TAPE];
+static mut FB_FAILS: bool = false;
+
+/// contract stub for Frame::from_bytes (the decoder itself is C01/C03): records the line it is given
+#[allow(unsafe_code)]
+fn stub_from_bytes<'a>(bytes: &[u8]) -> Result<Frame<'a>, FrameError>
+where
+    'a: 'a,
+{
+    unsafe {
+        FB_CALLS += 1;
+        FB_LEN = bytes.len();
+        let mut i = 0;
+        while i < TAPE {
+            if i < bytes.len() {
+                FB_BYTES[i] = bytes[i];
+            }
+            i += 1;
+        }
+        if FB_FAILS {
+            Err(FrameError::InvalidFrame { data: Vec::new() })
+        } else {
+            Ok(Frame::new(Address(0x1234), MsgType(0x56), Data::from(&[])))
+        }
+    }
+}
+
+/// C15 read side, BOUNDED: every tape of length 0..=max_len with arbitrary contents (the line feed anywhere or nowhere,
+/// bytes after it), Interrupted results (if allowed) and a hard error at arbitrary call indices.
+#[allow(unsafe_code)]
+fn read_consumes_exactly_one_line(max_len: usize, interrupts: bool) -> (bool, usize, usize, usize, usize, bool) {
+    let mut tape = Tape {
+        data: kani::any(),
+        len: kani::any(),
+        pos: 0,
+        calls: 0,
+        interrupt_at: if interrupts { kani::any() } else { [0, 0] },
+        hard_error_at: kani::any(),
+        lf_delivered: false,
+        reads_after_lf: 0,
+        max_request: 0,
+        hard_error_fired: false,
+    };
+    kani::assume(tape.len <= max_len);
+    kani::assume(tape.interrupt_at[0] <= 4 && tape.interrupt_at[1] <= 4 && tape.hard_error_at <= 6);
+    unsafe {
+        FB_CALLS = 0;
+        FB_FAILS = kani::any();
+    }
+    // reference: the line = bytes up to and including the first LF (or the whole tape at end of stream)
+    let mut line_len = tape.len;
+    let mut i = TAPE;
+    while i > 0 {
+        i -= 1;
+        if i < tape.len && tape.data[i] == b'\n' {
+            line_len = i + 1;
+        }
+    }
+    let r = Frame::read(&mut tape);
+    assert!(tape.max_request <= 1); // one byte at a time: nothing beyond the line can be pulled out of the stream
+    assert!(tape.reads_after_lf == 0); // not one read after the line feed
+    let (calls, len, bytes, fails) = unsafe { (FB_CALLS, FB_LEN, FB_BYTES, FB_FAILS) };
+    if tape.hard_error_fired {
+        assert!(calls == 0);
+        assert!(matches!(r, Err(FrameError::Io { .. }))); // I/O failures surface as an I/O error
+        assert!(tape.pos <= line_len);
+    } else {
+        assert!(tape.pos == line_len); // consumed exactly the line
+        assert!(calls == 1 && len == line_len); // decoded exactly once, exactly the line
+        let j: usize = kani::any();
+        kani::assume(j < line_len && j < TAPE);
+        assert!(bytes[j] == tape.data[j]);
+        assert!(r.is_err() == fails); // the result is the decoder's result
+    }
+    core::mem::forget(r);
+    (tape.hard_error_fired, line_len, tape.len, tape.calls, tape.pos, tape.lf_delivered)
+}
+
+#[kani::proof]
+#[kani::unwind(8)]
+#[kani::stub(Frame::from_bytes, stub_from_bytes)]
+fn c15_read_one_line_tape4_hard_errors() {
+    let (hard, line_len, len, _calls, pos, lf) = read_consumes_exactly_one_line(4, false);
+    kani::cover!(!hard && line_len == 2 && len == 4, "cov_trailing_bytes_stay");
+    kani::cover!(hard && pos == 1, "cov_hard_error_mid_line");
+    kani::cover!(!hard && len == 4 && line_len == 4 && !lf, "cov_eof_without_lf");
+}
+
+#[kani::proof]
+#[kani::unwind(6)]
+#[kani::stub(Frame::from_bytes, stub_from_bytes)]
+fn c15_read_one_line_tape2_interrupts() {
+    let (hard, line_len, len, calls, _pos, _lf) = read_consumes_exactly_one_line(2, true);
+    kani::cover!(!hard && line_len == 1 && len == 2 && calls >= 3, "cov_trailing_byte_stays_with_interrupts");
+}
+
+const SINK: usize = 20;
+struct Sink {
+    got: [u8; SINK],
+    n: usize,
+    calls: usize,
+    accept: usize,        // bytes accepted per call (1..)
+    interrupt_at: usize,  // the n-th write call reports Interrupted (0 = never)
+    hard_error_at: usize, // the n-th write call fails hard (0 = never)
+    hard_error_fired: bool,
+}
+impl Write for Sink {
+    fn write(&mut self, buf: &[u8]) -> io::Result<usize> {
+        self.calls += 1;
+        if self.calls == self.hard_error_at {
+            self.hard_error_fired = true;
+            return Err(io::Error::from(io::ErrorKind::BrokenPipe));
+        }
+        if self.calls == self.interrupt_at {
+            return Err(io::Error::from(io::ErrorKind::Interrupted));
+        }
+        let k = if buf.len() < self.accept { buf.len() } else { self.accept };
+        let mut i = 0;
+        while i < k {
+            if self.n < SINK {
+                self.got[self.n] = buf[i];
+            }
+            self.n += 1;
+            i += 1;
+        }
+        Ok(k)
+    }
+    fn flush(&mut self) -> io::Result<()> {
+        Ok(())
+    }
+}
+
+/// C15 write side, BOUNDED: a frame with one data byte (15 characters with CRLF), a sink that accepts `accept` bytes
+/// per call (4, 7 or 15), one Interrupted result and a hard error at arbitrary call indices.
+fn write_delivers_whole_frame(accept: usize) {
+    let addr: u16 = kani::any();
+    let ty: u8 = kani::any();
+    let byte: [u8; 1] = kani::any();
+    let data = match Data::try_new(&byte[..]) {
+        Ok(d) => d,
+        Err(e) => {
+            core::mem::forget(e);
+            panic!("try_new")
+        }
+    };
+    let f = Frame::new(Address(addr), MsgType(ty), data);
+    let mut sink = Sink { got: [0; SINK], n: 0, calls: 0, accept, interrupt_at: kani::any(), hard_error_at: kani::any(), hard_error_fired: false };
+    kani::assume(sink.interrupt_at <= 5 && sink.hard_error_at <= 5);
+    let r = f.write(&mut sink);
+    let want = f.to_bytes_with_newline();
+    assert!(want.len() == 15);
+    if sink.hard_error_fired {
+        assert!(matches!(r, Err(FrameError::Io { .. })));
+        assert!(sink.n < 15);
+    } else {
+        assert!(r.is_ok());
+        assert!(sink.n == 15); // the whole frame, nothing more
+    }
+    // whatever was delivered is a prefix of the encoding, in order
+    let i: usize = kani::any();
+    kani::assume(i < sink.n && i < 15);
+    assert!(sink.got[i] == want[i]);
+    kani::cover!(!sink.hard_error_fired && sink.calls >= 3, "cov_short_writes");
+    kani::cover!(sink.hard_error_fired && sink.n > 0, "cov_hard_error_after_partial_write");
+    core::mem::forget(r);
+}
+#[kani::proof]
+#[kani::unwind(18)]
+fn c15_write_delivers_whole_frame_accept4() {
+    write_delivers_whole_frame(4);
+}
+#[kani::proof]
+#[kani::unwind(18)]
+fn c15_write_delivers_whole_frame_accept7() {
+    write_delivers_whole_frame(7);
 }
